@@ -10,7 +10,7 @@ if ! git -C /repo diff --quiet; then echo "refusing: /repo has uncommitted chang
 git -C /repo apply "$P" || { echo "patch does not apply"; exit 3; }
 LOG=$(mktemp)
 VERIF_LOCK_HELD=1 /verif/bin/check "$ID" --tier "$TIER" > "$LOG" 2>&1; rc=$?
-git -C /repo checkout -- .
+git -C /repo apply -R "$P" || git -C /repo checkout -- $(git -C /repo apply --numstat "$P" | cut -f3)
 grep -E '^(VIOLATION|KNOWN-FINDING|TOOL-ERROR|DRIFT)' "$LOG" | head -8
 tail -2 "$LOG"
 echo "rc=$rc"; rm -f "$LOG"
